@@ -153,8 +153,31 @@ where
         url = url.replace("{line}", "")
     };
     // (last: a path may itself contain `{line}`)
-    url = url.replace("{path}", &absolute_path.as_ref().to_string_lossy());
+    url = url.replace(
+        "{path}",
+        &escape_control_characters(&absolute_path.as_ref().to_string_lossy()),
+    );
     Cow::from(format_osc8_hyperlink(&url, text))
+}
+
+/// A control character in a file name (newline, ESC, BEL) would end the line or the escape
+/// sequence which the URL is part of: percent-encode it.
+fn escape_control_characters(path: &str) -> Cow<str> {
+    if !path.chars().any(|c| c.is_control()) {
+        return path.into();
+    }
+    let mut escaped = String::with_capacity(path.len() + 8);
+    for c in path.chars() {
+        if c.is_control() {
+            let mut utf8 = [0; 4];
+            for byte in c.encode_utf8(&mut utf8).bytes() {
+                escaped.push_str(&format!("%{byte:02X}"));
+            }
+        } else {
+            escaped.push(c);
+        }
+    }
+    escaped.into()
 }
 
 fn format_osc8_hyperlink(url: &str, text: &str) -> String {
